@@ -20,7 +20,7 @@ LEVEL = 'exploration'
 EVAL_KEY = 'runs'
 C = 10.0
 TIERS = {
-    'quick': {'runs': 2400, 'opts': {}, 'chunk': 20},
+    'quick': {'runs': 5000, 'opts': {}, 'chunk': 20},
     'thorough': {'runs': 150000, 'opts': {}, 'chunk': 60, 'time_cap': 1500},
 }
 RULE = ('per run: x random rank 1..4; y in {1+z^2, 2+z/2, 1.5+z+z^2/2} with z of rank 1..3 scaled to max|z|=1 (so y>=1); order 2..5; '
@@ -163,7 +163,10 @@ def exec_case(p, res):
     nt = gen.fro(target)
     err = gen.fro(qd * gen.dense(y) - target)
     ratio = err / (p['eps'] * nt) if nt > 0 else 0.0
-    bound = C * p['eps'] * nt + 2000 * u * nt
+    rep = 1.0      # magnitude of the numerator's representation (roundoff scale)
+    for c_ in x.cores:
+        rep *= gen.fro(c_)
+    bound = C * p['eps'] * nt + 2000 * u * max(nt, rep if api != 'rdiv' else nt)
     if not err <= bound:
         out.append(core.violation(PROP, 'ACCURACY', api, 'error', '||q*y-x||/||x|| = %.3g = %.3g * eps (eps=%.0e), ranks %s' % (err / max(nt, 1e-300), ratio, p['eps'], gen.ints(q.R)), desc))
     elif ratio > 1.0 and p['eps'] >= 1e-11:
